@@ -100,6 +100,10 @@ def explain(pid, info):
 
 
 def gen_correspondence(run, pid, tier, seed):
+    import os
+    if os.environ.get('VERIF_TRANSLATOR_REFUSED') == '1':      # main.py: the translator refused the current source; nothing generated to evaluate
+        run.coverage['translated_source_cases'] = 0
+        return
     rng = random.Random(seed + 977)
     ncase = 250 if tier == 'quick' else 3000
     mod, fn = FILES[pid]
